@@ -504,6 +504,16 @@ bool apply(int op, uint8_t a, uint8_t b, uint8_t c, int ntab, size_t K, size_t m
             LIB(ld = cstl_hash_load(&t.h));
             took_effect_anyway = std::fabs(ld - took) <= 1e-6f * std::fabs(took);
         }
+        if (grows_cap && failed && t.has_buckets && t.n == 0 && n != t.tgt_n && n <= g_alloc_limit / 16) {
+            // same question on an EMPTY table, where the load is 0 either way: whether the refused request was followed by one
+            // that succeeded cannot be observed through the interface, and the model must not guess (a wrong guess turns into a
+            // false alarm at the next load check). The public struct is peeked to pick the branch; if it shows neither the old
+            // nor the requested bucket count the case ends here as inconclusive.
+            size_t pk = peek_pending(t) ? t.h.bucket.rh.count : t.h.bucket.count;
+            if (pk == n) took_effect_anyway = true;
+            else if (pk != t.tgt_n) throw Abandon{"C16.(outcome of a resize with a refused request on an empty table is not observable)"};
+            CNT("class.resize.refused_on_empty");
+        }
         if (grows_cap && failed && !took_effect_anyway) {
             // cannot be satisfied: quietly nothing
             CNT("class.resize.alloc_failed");
